@@ -38,7 +38,8 @@ def c17_lru(draw):
     scheme = draw(st.sampled_from([b"s:http|", b"s:https|", b"s:http|", b"s:https|", b"s:ftp|", b"s:HTTP|", b"s:httpx|"]))
     port = draw(st.sampled_from([b"", b"", b"", b"t:80|", b"t:443|"]))
     nh = draw(st.integers(0, 5))
-    vocab = [b"h:com|", b"h:fr|", b"h:a|", b"h:www|", b"h:www|", b"h:wwww|", b"h:ww|", b"h:s:http|", b"h:\xff|", b"h:www2|"]
+    vocab = [b"h:com|", b"h:fr|", b"h:a|", b"h:www|", b"h:www|", b"h:wwww|", b"h:ww|", b"h:s:http|", b"h:\xff|", b"h:www2|",
+             b"h:WWW|", b"h:Www|", b"h:www.|", b"h:WWW|"]
     hosts = [draw(st.sampled_from(vocab)) for _ in range(nh)]
     while len(hosts) >= 2 and hosts[-1] == b"h:www|" and hosts[-2] == b"h:www|":
         hosts.pop()
